@@ -16,9 +16,11 @@ def enumerate_faults(project):
     for f in project["files"]:
         for pi, _raw in enumerate(f["patterns"]):
             faults.append({"kind": "break", "path": f["path"], "pat": pi})
-        faults.append({"kind": "remove", "path": f["path"]})
+        if not f.get("glob_group"):
+            # (a file that is only reached through a recursive glob may disappear without making the entry invalid)
+            faults.append({"kind": "remove", "path": f["path"]})
     for f in project["files"]:
-        if len(f["patterns"]) >= 2 and not f.get("bare"):
+        if len(f["patterns"]) >= 2 and not f.get("bare") and not f.get("glob_group"):
             # double fault: one pattern has no match at all while another configured pattern only matches inside the
             # matches of an earlier one (a bare {version} pattern added to the file's entry)
             faults.append({"kind": "break+cover", "path": f["path"], "pat": len(f["patterns"]) - 1})
@@ -42,8 +44,9 @@ def apply_fault(w, project, fault):
             full = os.path.join(w.dir, f["path"])
             with open(full, "rb") as fobj:
                 data = fobj.read().decode("utf-8")
-            if raw.startswith("@k"):
-                marker = raw.split(" ")[0].split(":")[0].split("=")[0]
+            if "@k" in raw[:3]:
+                raw_m = raw[raw.index("@k"):]
+                marker = raw_m.split(" ")[0].split(":")[0].split("=")[0]
                 data2 = data.replace(marker + ":", "#" + marker[1:] + ":").replace(marker + " ", "#" + marker[1:] + " ")
             else:
                 # bare {version} pattern: destroy every digit so that no version text remains
